@@ -319,6 +319,53 @@ def _eval_once(case):
             return False, {'bits': u.reshape(-1, w)[:2].tolist()}, {'bits': padded[:2]}, 'unpack-pack'
         return True, None, None, None
 
+    if kind == 'nested':                         # audit 2, finding 9: arguments nested 2 or 3 deep (lists of lists of strings)
+        groups, depth = case['groups'], case['depth']
+        def leafs(x): return [x] if isinstance(x, str) else [y for g in x for y in leafs(g)]
+        def dims(x): return [] if isinstance(x, str) else [len(x)] + dims(x[0])
+        lead = dims(groups)                      # depth 2: [G, P]; depth 3: [H, G, P]
+        P, S = lead[-1], len(leafs(groups)[0])
+        try:
+            a = logic.mvarray(*groups)
+        except Exception as ex:
+            return False, {'mvarray': 'raised ' + _err(ex)}, {'mvarray': 'an array'}, 'mvarray-raises'
+        want = np.array([[doc_value(ch) for ch in st] for st in leafs(groups)], dtype=np.uint8).reshape(lead + [S])   # [..][pat][sig]
+        # ground truth, independent of swapaxes: every leading axis is a batch axis; per group signals second-to-last, patterns last;
+        # one-string groups: the pattern axis is dropped; one-character strings: interpret() makes the character a scalar
+        if S == 1: want = want.reshape(lead)
+        if want.ndim >= 2:
+            if want.shape[-2] > 1:
+                idx = list(range(want.ndim)); idx[-1], idx[-2] = idx[-2], idx[-1]
+                exp = np.empty([want.shape[i] for i in idx], dtype=np.uint8)
+                for pos in np.ndindex(*want.shape):
+                    q = list(pos); q[-1], q[-2] = q[-2], q[-1]
+                    exp[tuple(q)] = want[pos]
+            else:
+                exp = want.reshape(want.shape[:-2] + want.shape[-1:])
+        else: exp = want
+        if a.dtype != np.uint8:
+            return False, {'dtype': str(a.dtype)}, {'dtype': 'uint8'}, 'mvarray-dtype'
+        if a.shape != exp.shape or not np.array_equal(a, exp):
+            cls = 'axes' if (a.shape != exp.shape or sorted(a.reshape(-1).tolist()) == sorted(exp.reshape(-1).tolist())) else 'interpret'
+            return (False, {'shape': list(a.shape), 'values': a.tolist()}, {'shape': list(exp.shape), 'values': exp.tolist()}, cls)
+        return True, None, None, None
+
+    if kind == 'popcount-dtype':                 # audit 2, F6: dtypes other than uint8 (docstring: uint8) — low byte in two's complement
+        vals, dt = case['vals'], np.dtype(case['dtype'])
+        a = np.array(vals, dtype=np.int64).astype(dt)
+        stored = [int(x) for x in a.reshape(-1).tolist()]
+        in_range = all(-256 <= x < 256 for x in stored)
+        exp = sum(bin(x % 256).count('1') for x in stored) if in_range else 'IndexError'
+        try:
+            r = int(kyupy.popcount(a))
+        except IndexError:
+            r = 'IndexError'
+        except Exception as ex:
+            return False, {'popcount': 'raised ' + _err(ex)}, {'popcount': exp}, 'popcount'
+        if r != exp:
+            return False, {'popcount': r}, {'popcount': exp}, 'popcount'
+        return True, None, None, None
+
     if kind == 'popcount':
         a, ints = mk_array(case)
         exp = sum(bin(x).count('1') for x in ints)
@@ -353,6 +400,30 @@ def rshape(rng, maxd, dims=(1, 1, 2, 3, 5), allow0=True):
 
 def rstr(rng, n, p_other=0.08):
     return ''.join(rng.choice(OTHERS) if rng.random() < p_other else rng.choice(ALPHA) for _ in range(n))
+
+
+NESTED_FIXED = [{'kind': 'nested', 'depth': 2, 'groups': [['01', '1X'], ['--', 'HL']]},              # the docstring-style call of the audit
+                {'kind': 'nested', 'depth': 2, 'groups': [['01X', '10-'], ['11R', '00F']]},          # shape (2, 3, 2)
+                {'kind': 'nested', 'depth': 2, 'groups': [['01X'], ['11R']]},                        # one-string groups: (2, 3)
+                {'kind': 'nested', 'depth': 2, 'groups': [['0', '1'], ['1', 'X']]},                  # one-character strings: (2, 2)
+                {'kind': 'nested', 'depth': 2, 'groups': [['01', '1X']]},                            # one group: (1, 2, 2)
+                {'kind': 'nested', 'depth': 3, 'groups': [[['01', '1X'], ['--', 'HL']], [['00', '11'], ['XX', 'PP']]]},
+                {'kind': 'nested', 'depth': 3, 'groups': [[['01'], ['--']], [['00'], ['XX']]]}]
+
+
+def gen_nested(rng):
+    depth = rng.choice([2, 2, 3])
+    G, P, S = rng.choice([1, 2, 3, 4]), rng.choice([1, 2, 2, 3, 5, 9]), rng.choice([1, 2, 3, 3, 8])
+    grp = lambda: [rstr(rng, S) for _ in range(P)]
+    if depth == 2: groups = [grp() for _ in range(G)]
+    else: groups = [[grp() for _ in range(G)] for _ in range(rng.choice([1, 2, 3]))]
+    return {'kind': 'nested', 'depth': depth, 'groups': groups}
+
+
+def enc_nested(x, depth):
+    """driver encoding of nested arguments: strings `s<codes>` joined by `|`, groups by `/`, groups of groups by `//`; `_` = empty list"""
+    if depth == 1: return enc_strs(x) if x else '_'
+    return ('/' * (depth - 1)).join(enc_nested(g, depth - 1) for g in x) if x else '_'
 
 
 def gen_cases(rng, scale, exhaustive=True):
@@ -395,6 +466,15 @@ def gen_cases(rng, scale, exhaustive=True):
     for _ in range(100 * scale):
         cases.append({'kind': 'popcount', 'shape': rshape(rng, 4, dims=(1, 2, 3, 7, 16)), 'seed': rng.randint(0, 2 ** 31 - 1),
                       'layout': rng.choice(['C', 'T', 'stride'])})
+    for case in NESTED_FIXED: cases.append(dict(case))
+    for _ in range(60 * scale):
+        cases.append(gen_nested(rng))
+    for dt in ('int8', 'uint16', 'int16', 'int32', 'uint32', 'int64'):
+        for vals in ([3, 255], [511, 3], [-1, 2], [0], [256], [-256, 7], [-257]):
+            cases.append({'kind': 'popcount-dtype', 'dtype': dt, 'vals': vals})
+        for _ in range(6 * scale):
+            cases.append({'kind': 'popcount-dtype', 'dtype': dt,
+                          'vals': [rng.choice([rng.randint(0, 255), rng.randint(-256, -1), rng.randint(-300, 600)]) for _ in range(rng.randint(0, 9))]})
     for _ in range(20 * scale):
         cases.append({'kind': 'cdiv', 'x': rng.choice([0, 1, 7, 8, 9, rng.randint(0, 10 ** 6)]), 'y': rng.choice([1, 2, 8, 32, rng.randint(1, 999)])})
     return cases
@@ -419,6 +499,13 @@ def describe(c):
         return (k, c['dtype'], tuple(c['lead']), c['n']), [k, 'dtype:' + c['dtype'], rel, 'vals:' + c['vals']], (0 not in c['lead'] and c['n'] > 0)
     if k == 'popcount':
         return (k, tuple(c['shape'])), [k, f"ndim={len(c['shape'])}"], 0 not in c['shape']
+    if k == 'nested':
+        g = c['groups']
+        def dims(x): return [] if isinstance(x, str) else [len(x)] + dims(x[0])
+        d = dims(g); S = len(str(json.dumps(g)).split('"')[1]) if d else 0
+        return (k, json.dumps(g)), [k, f"nested-depth={c['depth']}", 'nested-P=' + ('1' if d[-1] == 1 else '2+'), 'nested-S=' + ('1' if S == 1 else '2+')], d[-1] >= 2 and S >= 2
+    if k == 'popcount-dtype':
+        return (k, c['dtype'], tuple(c['vals'])), [k, 'popcount-dtype:' + c['dtype'], 'popcount-range:' + ('in' if all(-256 <= v < 256 for v in c['vals']) else 'out')], len(c['vals']) > 0
     if k == 'cdiv':
         return (k, c['x'], c['y']), [k], c['x'] % c['y'] != 0
     return (k,), [k], True
@@ -482,6 +569,22 @@ def corr(ck, scale):
     for ss in str_sets:
         r = real(lambda: ans_arr(logic.mvarray(*ss)))
         reqs.append((f'enc.mvarray {enc_strs(ss)}', r, 'mvarray', ss))
+        if ss: reqs.append((f'enc.mvarrayn 1 {enc_nested(ss, 1)}', r, 'mvarray (nested model, depth 1)', ss))
+    # audit 2, finding 9: arguments nested 2 / 3 deep (model mvarray2 / mvarray3 = stack + arrange), incl. ragged and empty nestings
+    nested = [(c['depth'], c['groups']) for c in NESTED_FIXED]
+    nested += [(2, [['01', '1X'], ['--']]), (2, [['01', '1X'], ['--', 'H']]), (2, [[], []]), (2, [['', ''], ['', '']]), (2, [[''], ['']]),
+               (2, [['0'], ['1']]), (3, [[[], []], [[], []]]), (3, [[['01', '1X']], [['--', 'HL'], ['00', '11']]]), (2, [['01'], ['1']])]
+    for _ in range(60 * scale):
+        c = gen_nested(rng)
+        g = c['groups']
+        if rng.random() < 0.12:   # ragged somewhere
+            t = g[-1] if c['depth'] == 2 else g[-1][-1]
+            t[-1] = t[-1] + '0'
+        nested.append((c['depth'], g))
+    for depth, g in nested:
+        r = real(lambda: ans_arr(logic.mvarray(*g)))
+        reqs.append((f'enc.mvarrayn {depth} {enc_nested(g, depth)}', r, f'mvarray (nested, depth {depth})', g))
+        ck.hist[f'tie-hyp:mvarray-nested:depth={depth}:' + ('err' if r == 'err' else f'ndim={len(r.split(" ")[0].split(","))}')] += 1
     for _ in range(60 * scale):
         sh = rshape(rng, 3, dims=(1, 2, 3, 9)) or [4]
         a = np.array([rng.randint(0, 7 if rng.random() < 0.9 else 9) for _ in range(int(np.prod(sh)))], dtype=np.uint8).reshape(sh)
@@ -514,6 +617,10 @@ def corr(ck, scale):
     for _ in range(40 * scale):
         a = np.array([rng.randint(0, 255) for _ in range(rng.randint(0, 40))], dtype=np.uint8)
         reqs.append((f'enc.popcount {_l(a)}', str(int(kyupy.popcount(a))), 'popcount', a.tolist()))
+        dt = np.dtype(rng.choice(['int8', 'uint16', 'int16', 'int32', 'uint32', 'int64']))
+        b = np.array([rng.choice([rng.randint(0, 255), rng.randint(-256, -1), rng.randint(-300, 600)]) for _ in range(rng.randint(0, 9))], dtype=np.int64).astype(dt)
+        reqs.append((f'enc.popcountint {_l(b.tolist())}', real(lambda: str(int(kyupy.popcount(b)))), f'popcount ({dt.name})', b.tolist()))
+        ck.hist[f'tie-hyp:popcount-dtype:{dt.name}'] += 1
         if len(a):
             pos = rng.randrange(8 * len(a))
             reqs.append((f'enc.bitin {_l(a)} {pos}', str(int(logic.bit_in(a, pos))), 'bit_in', [a.tolist(), pos]))
@@ -632,7 +739,7 @@ def run(ck):
         'NumPy (array construction, view, packbits/unpackbits, pad, choose, swapaxes) is exercised, not modelled',
         'documented characters/aliases (docChars, docAliases in Props/C15Gen.lean; DOC in harness/c15.py) are transcribed from the docstrings of logic.py:54-80',
         'domain: mv_str on arrays with at most two axes (more axes raise TypeError); packbits to a signed dtype needs a non-empty last axis; '
-        'popcount on uint8 data; native byte order; patterns of ONE item each form one flat vector (tests/test_logic.py: mvarray(1, 0, 1))',
+        'popcount: bit count for uint8 data (and int8: low byte in two\'s complement); other integer dtypes: modelled and tied (popcountInt: low byte for entries in -256..255, IndexError outside; NOT the bit count of the wide element; bool and uint64 >= 2**63 not modelled); mvarray with nested arguments: depth 2 theorem (mvarray_nested), depth 2/3 incl. corner cases modelled + tied (enc.mvarrayn) + oracle kind nested; mv_str of >2-D arrays raises TypeError in the real code (model none): rendering is lossless for <= 2-D only; native byte order; patterns of ONE item each form one flat vector (tests/test_logic.py: mvarray(1, 0, 1))',
     ]
     return ck.finish(RULE)
 
